@@ -3,7 +3,7 @@
    model/Pipeline.v (generic channel LTS), model/ReadPath.v (the concrete stages, controller prelude,
    unrecovered arithmetic). Proofs: proofs/PipelineProofs.v, proofs/ReadPathProofs.v. *)
 From Coq Require Import List ZArith Bool.
-From Qryn Require Import model.ReaderGoroutines gen.GenGoroutinesReader model.Pipeline model.ReadPath model.ReadFwd
+From Qryn Require Import model.ReaderGoroutines model.ReaderFlow proofs.ReaderFlowProofs gen.GenGoroutinesReader model.Pipeline model.ReadPath model.ReadFwd
   model.ReadProm proofs.PipelineProofs proofs.ReadPathProofs proofs.ReadFwdProofs proofs.ReadPromProofs.
 Import ListNotations.
 Open Scope Z_scope.
@@ -25,10 +25,39 @@ Print Assumptions handler_loops_receive_until_close.
 
 (* Over the regenerated inventory of reader/: every Lock()/RLock() statement is given back on every way out of its
    region (deferred Unlock, or an explicit Unlock with every return in between unlocking first) -- a lock kept on an
-   error path (e.g. GetVersionInfo when SHOW TABLES fails) would block every later request forever. *)
-Theorem locks_released_on_every_path : locks_ok reader_locks = true.
-Proof. vm_compute. reflexivity. Qed.
+   error path (e.g. GetVersionInfo when SHOW TABLES fails) would block every later request forever.
+   AND, over the generated control-flow model of every function body / function literal that takes a mutex (one model per
+   mutex; every Lock statement of the inventory occurs in one): on EVERY path through the body -- any branch, any number of
+   loop iterations, break / continue, return, falling off the end, and (unless the region is on the reviewed list, none of
+   whose entries is stale) a panic of any statement that can panic -- the mutex is free once the deferred calls have run,
+   it is never locked twice and never unlocked while free. *)
+Theorem locks_released_on_every_path :
+  locks_ok reader_locks = true /\
+  total_acq reader_lock_flows = List.length reader_locks /\ stale_reviews reader_lock_flows = [] /\
+  forall f, In f reader_lock_flows -> forall o st',
+    exec (f_body f) (h0_of (f_kind f), 0%nat) o st' -> safe_exit (strict_of f) o st'.
+Proof.
+  split; [vm_compute; reflexivity|]. split; [vm_compute; reflexivity|]. split; [vm_compute; reflexivity|].
+  apply flows_ok_sound. vm_compute. reflexivity.
+Qed.
 Print Assumptions locks_released_on_every_path.
+
+(* Over the generated control-flow model of every goroutine body that sends on a channel (one model per channel): on EVERY
+   path through the body the channel is closed exactly once when the goroutine ends -- also when it ends by a panic, if the
+   body recovers (WrapProcess, MatrixStepPlanner, OutputQuery) -- so the receiver's `for x := range ch` always ends
+   ("return = close own channel" is what the LTS of model/Pipeline.v assumes of every cell). *)
+Theorem sending_goroutines_close_on_every_path :
+  forall f, In f reader_close_flows -> forall o st',
+    exec (f_body f) (h0_of (f_kind f), 0%nat) o st' -> safe_exit (strict_of f) o st'.
+Proof. apply flows_ok_sound. vm_compute. reflexivity. Qed.
+Print Assumptions sending_goroutines_close_on_every_path.
+
+(* Over the regenerated inventory of the channel operations of every goroutine body under reader/: the blocking sends,
+   blocking receives, selects, range loops and close calls are the reviewed ones (compared with the cell that models the
+   body), no select can block without a Done case or a default, and a body that sends has a close. *)
+Theorem channel_ops_accounted : chanops_ok reader_chanops = true.
+Proof. vm_compute. reflexivity. Qed.
+Print Assumptions channel_ops_accounted.
 
 (* ... and that is needed: a handler loop that returns at the first failed write breaks the contract. *)
 Theorem handler_must_not_stop_at_a_failed_write : ~ good_node (handler_node (S:=st) (M:=msg) false).
